@@ -278,6 +278,7 @@ impl MqttShared {
     fn clear_queues(&self) {
         let mut queues = self.queues.borrow_mut();
         queues.waiters.clear();
+        self.streaming_waiter.take();
 
         if let Some(cb) = self.on_publish_ack.take() {
             for (idx, tx, _) in queues.inflight.drain(..) {
